@@ -68,7 +68,7 @@ type Param struct{ Name, Type string }
 var clauseKeywords = map[string]bool{"func": true, "spec": true, "lemma": true, "requires": true, "ensures": true, "modifies": true,
 	"pure": true, "inline": true, "assumed": true, "fp": true, "loop": true, "ghost": true, "property": true, "opaque": true,
 	"noframe": true, "trusted": true, "deterministic": true, "maxinline": true, "allowpanic": true, "import": true, "intsmath": true, "nocanary": true,
-	"havocglobals": true, "readsheap": true, "alloclimit": true, "fpcmp": true, "stream": true, "timeout": true, "thorough": true, "terminates": true}
+	"havocglobals": true, "readsheap": true, "alloclimit": true, "replay": true, "fpcmp": true, "stream": true, "timeout": true, "thorough": true, "terminates": true}
 
 type ContractSet struct {
 	ByPkg   map[string][]*Contract // pkg dir -> contracts in file order
@@ -684,8 +684,11 @@ func vcTypeIs[T any](x any) bool { _, ok := x.(T); return ok }
 func vcMod[T any](p *T) {}
 func vcModElems[T any](s []T) {}
 func vcModObj[T any](p *T) {}
+func vcModMap[K comparable, V any](m map[K]V) {}
 func vcLen[T any](s []T) int { return len(s) }
 func vcSame[T any](a, b T) bool { return true }
+func vcMapHas[K comparable, V any](m map[K]V, k K) bool { _, ok := m[k]; return ok }
+func vcHeld[T any](mu *T) bool { return false }
 func vcOldGet[T any](k int, witness T) T { return witness }
 func vcOldBind[T any](k int, x T) {}
 func vcErrorRaised() bool { return false }
@@ -843,7 +846,9 @@ func (c *Contract) gen(b *strings.Builder, idx int) error {
 				if m == "nothing" || m == "" {
 					continue
 				}
-				if strings.HasSuffix(m, "[*]") {
+				if strings.HasSuffix(m, "{*}") {
+					fmt.Fprintf(b, "\tvcModMap(%s)\n", strings.TrimSuffix(m, "{*}"))
+				} else if strings.HasSuffix(m, "[*]") {
 					fmt.Fprintf(b, "\tvcModElems(%s)\n", strings.TrimSuffix(m, "[*]"))
 				} else if strings.HasPrefix(m, "*") {
 					fmt.Fprintf(b, "\tvcModObj(%s)\n", strings.TrimPrefix(m, "*"))
